@@ -150,6 +150,8 @@ pub fn panic_site(msg: &str) -> String {
 #[derive(Default)]
 struct Agg {
     evaluations: u64,
+    run_secs: f64,
+    slowest: (f64, u64),
     nontrivial_shapes: BTreeSet<u64>,
     all_shapes: BTreeSet<u64>,
     fingerprints: BTreeSet<u64>,
@@ -223,8 +225,14 @@ pub fn run_batch(scs: &[Arc<dyn Scenario>], opts: &BatchOpts) -> i32 {
                     break;
                 }
                 let seed = run_seed(base, sc.property(), sc.name(), i);
+                let rt = Instant::now();
                 let out = execute(&sc, &known, seed, None, false);
+                let rt = rt.elapsed().as_secs_f64();
                 let mut a = agg.lock().unwrap();
+                a.run_secs += rt;
+                if rt > a.slowest.0 {
+                    a.slowest = (rt, i);
+                }
                 a.evaluations += 1;
                 a.all_shapes.insert(out.ctx.shape);
                 if out.ctx.nontrivial {
@@ -257,10 +265,13 @@ pub fn run_batch(scs: &[Arc<dyn Scenario>], opts: &BatchOpts) -> i32 {
         let mut a = Arc::try_unwrap(agg).ok().unwrap().into_inner().unwrap();
         let secs = st.elapsed().as_secs_f64();
         println!(
-            "  scenario {}: {} runs in {:.1}s ({} distinct non-trivial shapes, {} faults fired){}",
+            "  scenario {}: {} runs in {:.1}s (mean {:.2}s/run, slowest {:.1}s = run {}; {} distinct non-trivial shapes, {} faults fired){}",
             sc.name(),
             a.evaluations,
             secs,
+            a.run_secs / a.evaluations.max(1) as f64,
+            a.slowest.0,
+            a.slowest.1,
             a.nontrivial_shapes.len(),
             a.faults.values().sum::<u64>(),
             if a.evaluations < runs && a.violations.is_empty() { " [budget cap reached]" } else { "" }
